@@ -93,7 +93,7 @@ CLAIMED = {
     note="Trusted: callbacks return >= 0 and do not touch the scheduler; execute precedes advance in each frame (call-site protocol); induction principle for counting-function lemmas.",
     design="9/C08"),
  "C17": dict(
-    technique="contract-based deductive verification: the live trxd_proto PDU objects (structure concrete as built by the real constructors, values and octets symbolic) executed through the real codec.py by PyVC; layout, round trip, decode-any-octets, burst-length table, and the cross lemma with the message codec's layout spec; z3",
+    technique="contract-based deductive verification: the live trxd_proto PDU objects (structure concrete as built by the real constructors, values and octets symbolic) executed through the real codec.py by PyVC; layout, round trip, decode-any-octets, burst-length table, and the cross lemma with the message codec's layout spec; z3; the message codec's validation contract (Msg/TxMsg/RxMsg.validate, gen_msg, send_msg - shared with C13) is discharged in this check too",
     text="All field values, all 16 modulation codes x NOPE enumerated (each case loop-free, complete), arbitrary input octet strings up to 2048, all valid v0/v1 codec messages incl. legacy padding; batched v2 sub-PDUs proved prefix-decodable (any count via codec.Sequence's law).",
     note="Trusted: PyVC builtin models (int.from_bytes/to_bytes, bytes.join, slicing); PDU constructors' results taken from the live objects; Sequence repetition law is C16's.",
     design="9/C17"),
